@@ -228,6 +228,11 @@ type Session struct {
 	sweep  bool // zero-annotation mode: callees without contracts are havoc-all
 	rg     *rgInfo
 	maxPaths int
+	mergeOn  bool
+	pending  map[*ssa.BasicBlock][]parked
+	rpo      map[*ssa.BasicBlock]int
+	fwdPreds map[*ssa.BasicBlock]int
+	resumeBlock *ssa.BasicBlock
 }
 
 type loopInfo struct {
@@ -261,7 +266,7 @@ func (s *Session) H(st *State, key string, sort Sort) Term {
 		t := s.D.Const(name, sort)
 		if key != "$brk" {
 			brk := s.D.Const(fmt.Sprintf("$brk@%d", st.epoch), SInt)
-			if cl := closureOf(t, brk); cl.S != "true" {
+			if cl := closureOf(key, t, brk); cl.S != "true" {
 				s.D.Axiom("closure:"+name, cl.S)
 			}
 		}
@@ -276,7 +281,22 @@ func sliceWF(e, brk string) string {
 
 // closureOf: every slice stored in heap entry a refers to an allocated backing
 // array (reference <= brk): the heap is closed under allocation.
-func closureOf(a Term, brk Term) Term {
+func closureOf(key string, a Term, brk Term) Term {
+	isRef := strings.HasSuffix(key, "_Ref")
+	if isRef && strings.HasPrefix(key, "MapDom_") {
+		isRef = false
+	}
+	if isRef {
+		switch {
+		case a.Sort == ArrSort(SInt, SInt):
+			e := fmt.Sprintf("(select %s i!c)", a.S)
+			return Term{fmt.Sprintf("(forall ((i!c Int)) (! (<= %s %s) :pattern (%s)))", e, brk.S, e), SBool}
+		case strings.HasPrefix(string(a.Sort), "(Array Int (Array ") && strings.HasSuffix(string(a.Sort), " Int))"):
+			inner := idxSortOf(elemSortOf(a.Sort))
+			e := fmt.Sprintf("(select (select %s i!c) k!c)", a.S)
+			return Term{fmt.Sprintf("(forall ((i!c Int) (k!c %s)) (! (<= %s %s) :pattern (%s)))", inner, e, brk.S, e), SBool}
+		}
+	}
 	switch a.Sort {
 	case ArrSort(SInt, SSlice):
 		e := fmt.Sprintf("(select %s i!c)", a.S)
@@ -376,7 +396,7 @@ func (s *Session) havocKey(st *State, key string) {
 	}
 	n := s.D.Fresh(key, sort)
 	st.heap[key] = n
-	st.assume(closureOf(n, s.H(st, "$brk", SInt)))
+	st.assume(closureOf(key, n, s.H(st, "$brk", SInt)))
 }
 
 func (s *Session) fresh(hint string, sort Sort) Term { return s.D.Fresh(hint, sort) }
@@ -481,9 +501,9 @@ func (s *Session) wellTyped(st *State, t types.Type, v Term) Term {
 		return And(Le(TZero, SLen(v)), Le(SLen(v), SCap(v)), Le(TZero, SOff(v)), Le(TZero, SArr(v)), Le(SArr(v), s.H(st, "$brk", SInt)),
 			Implies(Eq(SArr(v), TZero), Eq(SCap(v), TZero)), Le(SCap(v), BigLit("4611686018427387904")))
 	case *types.Pointer, *types.Map, *types.Chan:
-		return And(Le(TZero, v), Le(v, s.H(st, "$brk", SInt)))
+		return Le(v, s.H(st, "$brk", SInt)) // sub-object and escaped-local references are negative
 	case *types.Signature:
-		return Le(TZero, v)
+		return TTrue
 	case *types.Interface:
 		return And(Le(TZero, ITag(v)), Implies(Eq(ITag(v), TZero), Eq(IVal(v), TZero)))
 	case *types.Struct, *types.Array:
@@ -697,13 +717,13 @@ func (s *Session) asTerm(v Value, t types.Type) Term {
 	case *Closure:
 		key := fmt.Sprintf("clo_%s_%p", sanitize(x.Fn.Name()), x)
 		tm := s.D.Const(key, SInt)
-		s.D.Axiom("pos:"+key, fmt.Sprintf("(> %s 0)", key))
+		s.D.Axiom("pos:"+key, fmt.Sprintf("(< %s 0)", key))
 		escapeTable[key] = x
 		return tm
 	case *FuncRef:
 		key := "fn_" + sanitize(x.Fn.String())
 		tm := s.D.Const(key, SInt)
-		s.D.Axiom("pos:"+key, fmt.Sprintf("(> %s 0)", key))
+		s.D.Axiom("pos:"+key, fmt.Sprintf("(< %s 0)", key))
 		escapeTable[key] = x
 		return tm
 	case *Loc:
@@ -713,13 +733,13 @@ func (s *Session) asTerm(v Value, t types.Type) Term {
 			key = key[:80]
 		}
 		tm := s.D.Const(key, SInt)
-		s.D.Axiom("pos:"+key, fmt.Sprintf("(> %s 0)", key))
+		s.D.Axiom("pos:"+key, fmt.Sprintf("(< %s 0)", key))
 		escapeTable[tm.S] = x
 		return tm
 	case *CellPtr:
 		key := fmt.Sprintf("cell_%s_%s", sanitize(x.A.Comment), sanitize(x.A.Name()))
 		tm := s.D.Const(key, SInt)
-		s.D.Axiom("pos:"+key, fmt.Sprintf("(> %s 0)", key))
+		s.D.Axiom("pos:"+key, fmt.Sprintf("(< %s 0)", key))
 		escapeTable[tm.S] = x
 		return tm
 	case Unit:
